@@ -1,21 +1,43 @@
+import TempestVerif.Drv.C01
+import TempestVerif.Drv.C02
+import TempestVerif.Drv.C03
+import TempestVerif.Drv.C04
+import TempestVerif.Drv.C05
+import TempestVerif.Drv.C06
+import TempestVerif.Drv.C07
+import TempestVerif.Drv.C08
+import TempestVerif.Drv.C09
+import TempestVerif.Drv.C10
+import TempestVerif.Drv.C11
+import TempestVerif.Drv.C12
+import TempestVerif.Drv.C13
+import TempestVerif.Drv.C14
+import TempestVerif.Drv.C15
 import TempestVerif.Drv.C16
+import TempestVerif.Drv.C17
+import TempestVerif.Drv.C18
+import TempestVerif.Drv.C19
+import TempestVerif.Drv.C20
 /-
   Model driver: one operation per input line, one result line per operation.
-      <cmd>.<F|Q> key=value key=value …
-  `F` evaluates the model at `Float` (bit patterns in, bit patterns out), `Q` at `Rat`.
-  Unknown or malformed operations answer `bad-op` (never a default).
+      <cmd> key=value key=value …
+  By convention `<name>.F` evaluates a model at `Float` (IEEE bit patterns in and out, 16 hex digits)
+  and `<name>.Q` at `Rat` (`p/q`).  Unknown or malformed operations answer `bad-op` (never a default).
+  Each property owns `TempestVerif/Drv/Cxx.lean` and exports `handle`.
 -/
 open Drv
+
+def handlers : List (String → List (String × String) → Option String) :=
+  [C01.handle, C02.handle, C03.handle, C04.handle, C05.handle, C06.handle, C07.handle, C08.handle, C09.handle, C10.handle, C11.handle, C12.handle, C13.handle, C14.handle, C15.handle, C16.handle, C17.handle, C18.handle, C19.handle, C20.handle]
 
 def dispatch (line : String) : String :=
   match (line.trimAscii.toString.splitOn " ").filter (· ≠ "") with
   | [] => "bad-op"
   | cmd :: rest =>
     let args := argMap rest
-    match cmd with
-    | "bc.F" => C16.bc Float args
-    | "bc.Q" => C16.bc Rat args
-    | _ => "bad-op"
+    match handlers.findSome? (fun h => h cmd args) with
+    | some r => r
+    | none => "bad-op"
 
 partial def loop (h : IO.FS.Stream) (out : IO.FS.Stream) : IO Unit := do
   let line ← h.getLine
